@@ -51,8 +51,8 @@ def run(tier, seed, res):
     res.rule = RULE
     res.assumptions = ["only the owner thread allocates from its thread mempool; any thread may free",
                        "copies are released once, by whoever holds them; the data_t of a device-0 copy is released by the user",
-                       "known finding excluded by construction unless C27_KNOWN_CACHE_RACE=include: concurrent single-element releases into an arena "
-                       "with a finite non-zero cache limit are serialised (counted in label excluded_known_cache_limit_race_serialized_releases)",
+                       "the cache-limit race (C27-F1) is repaired in /repo: concurrent single-element releases are generated without "
+                       "serialisation (C27_KNOWN_CACHE_RACE=exclude restores the old exclusion)",
                        "sequential consistency at atomic-operation granularity under dsched"]
     _known(res, b)
     n = 8
@@ -65,8 +65,8 @@ def run(tier, seed, res):
     if res.violations:
         return
     mult = 1 if quick else 150
-    jobs = [dict(cmd=[b, "stress", str(t), str(it * mult), str(seed * 17 + t)], env={"ASAN_OPTIONS": ASAN}, tag="stress") for t, it in ((2, 2500), (4, 2000), (8, 1200), (16, 800))]
-    wr = core.run_workers(PROP, jobs, timeout=tmo, max_parallel=1)
+    jobs = [dict(cmd=[b, "stress", str(t), str(it * mult), str(seed * 17 + t)], env={"ASAN_OPTIONS": ASAN}, tag="stress") for t, it in ((2, 1500), (4, 1200), (8, 800), (16, 500))]
+    wr = core.run_workers(PROP, jobs, timeout=tmo, max_parallel=2)
     res.absorb(wr, "stress")
     collect(res, wr)
     if res.violations:
